@@ -21,10 +21,10 @@ pub fn property() -> Property {
             SubCheck {
                 name: "fast-forward",
                 about: "fast_forward_singleton: Ok => raw-tree diff limited to three atoms, re-run as spend of new_coin succeeds with identical created coins; every corruption refused",
-                source: Source::Random { len: 768, quick: 30_000, thorough: 600_000 },
+                source: Source::Random { len: 1024, quick: 350_000, thorough: 7_000_000 },
                 run: ff::case_ff,
                 inflight: false,
-                min_nontrivial: 10_000,
+                min_nontrivial: 150_000,
                 required_labels: &[
                     "ff:original-runs",
                     "ff:rewritten",
@@ -48,10 +48,10 @@ pub fn property() -> Property {
             SubCheck {
                 name: "dedup-fingerprint",
                 about: "equal fingerprints of two accepted, eligible spends of the same coin => equal parsed condition sequences and summaries",
-                source: Source::Random { len: 512, quick: 200_000, thorough: 4_000_000 },
+                source: Source::Random { len: 512, quick: 3_000_000, thorough: 30_000_000 },
                 run: dedup::case_pairs,
                 inflight: false,
-                min_nontrivial: 40_000,
+                min_nontrivial: 1_000_000,
                 required_labels: &[
                     "pair:both-eligible",
                     "fingerprints-equal",
@@ -59,6 +59,8 @@ pub fn property() -> Property {
                     "fingerprints-equal:lists-differ:hint-shape",
                     "fingerprints-equal:lists-differ:memo-added",
                     "fingerprints-equal:lists-differ:remark-arg-changed",
+                    "fingerprints-equal:hint-empty-computed",
+                    "puzzle:apply-first-of-solution",
                     "fingerprints-differ:bytes-moved:absorb-next-condition",
                     "fingerprints-differ:bytes-moved:amount-hint",
                     "fingerprints-differ:bytes-moved:arg-absorbs-remark",
@@ -71,13 +73,15 @@ pub fn property() -> Property {
             SubCheck {
                 name: "dedup-eligibility",
                 about: "ELIGIBLE_FOR_DEDUP set => no AGG_SIG_*, no SEND/RECEIVE_MESSAGE, created value >= coin amount (independent scan of the emitted list)",
-                source: Source::Random { len: 1536, quick: 120_000, thorough: 3_000_000 },
+                source: Source::Random { len: 1536, quick: 2_000_000, thorough: 20_000_000 },
                 run: dedup::case_eligibility,
                 inflight: false,
-                min_nontrivial: 20_000,
+                min_nontrivial: 800_000,
                 required_labels: &[
                     "source:shared-bundle",
                     "source:targeted",
+                    "flags:compute-fingerprint",
+                    "flags:no-fingerprint",
                     "elig:set:created-equals-amount",
                     "elig:set:created-exceeds-amount",
                     "elig:clear:agg-sig",
